@@ -65,9 +65,11 @@ def d1_flag(facts, rep):
             if v.get('k') == 'binop' and v['op'] == '+':
                 helper.append((p, o))
 
+        exp_v = set(fn.n(fn.strip(o['expected'])).get('v') for _, o in cas)      # the CAS's expected argument
+
         def above_done(a, truth):
             n = fn.n(fn.strip(a))
-            return truth and n.get('k') == 'binop' and n['op'] == '>' and fn.n(fn.strip(n['l'])).get('n') == 'expected'
+            return truth and n.get('k') == 'binop' and n['op'] == '>' and fn.n(fn.strip(n['l'])).get('v') in exp_v and fn.cv(n['r']) == 1
         ge = edges_where(fn, above_done)
         ok = bool(helper) and all(dominated_by_edges(fn, p, ge)[0] for p, _ in helper)
         rep.ob('D1', 'K4', fn, 'a helper adds its reference only while a runner is installed (expected > done)', ok,
@@ -76,7 +78,7 @@ def d1_flag(facts, rep):
 
         def uninit(a, truth):
             n = fn.n(fn.strip(a))
-            return truth and n.get('k') == 'binop' and n['op'] == '==' and fn.n(fn.strip(n['l'])).get('n') == 'expected' and fn.cv(n['r']) == 0
+            return truth and n.get('k') == 'binop' and n['op'] == '==' and fn.n(fn.strip(n['l'])).get('v') in exp_v and fn.cv(n['r']) == 0
         ue = edges_where(fn, uninit)
         ok2 = bool(winner) and all(dominated_by_edges(fn, p, ue)[0] for p, _ in winner)
         rep.ob('D1', 'K4', fn, 'the winner CAS is attempted only from the uninitialized state', ok2, 'a done / running flag can be overwritten by a new winner')
